@@ -4,71 +4,371 @@
 From MQ Require Import Base Codec SpecDecode.
 Open Scope N_scope.
 
+Lemma some_inj {A} (a b : A) : Some a = Some b -> a = b.
+Proof. congruence. Qed.
+
+(* ---------- bit operations on one byte: finite sweep over 0..255 ---------- *)
+
+Lemma byte_sweep :
+  forallb (fun b => (N.lor b 128 =? b mod 128 + 128) && (N.land b 127 =? b mod 128))
+          (map N.of_nat (seq 0 256)) = true.
+Proof. vm_compute. reflexivity. Qed.
+
+Lemma byte_bits b : b < 256 -> N.lor b 128 = b mod 128 + 128 /\ N.land b 127 = b mod 128.
+Proof.
+  intros Hb. pose proof byte_sweep as Hs. rewrite forallb_forall in Hs.
+  assert (Hin : In b (map N.of_nat (seq 0 256))).
+  { apply in_map_iff. exists (N.to_nat b). split; [apply N2Nat.id | apply in_seq; lia]. }
+  apply Hs in Hin. apply andb_true_iff in Hin as [H1 H2].
+  apply N.eqb_eq in H1. apply N.eqb_eq in H2. split; assumption.
+Qed.
+
+Lemma lor_go_byte x : N.lor (x mod 256) 128 = x mod 128 + 128.
+Proof.
+  destruct (byte_bits (x mod 256)) as [H _]; [lia|]. rewrite H. lia.
+Qed.
+
+Lemma land_go_byte x : N.land (x mod 256) 127 = x mod 128.
+Proof.
+  destruct (byte_bits (x mod 256)) as [_ H]; [lia|]. rewrite H. lia.
+Qed.
+
+Lemma shiftr7 n : N.shiftr n 7 = n / 128.
+Proof. rewrite N.shiftr_div_pow2. reflexivity. Qed.
+Lemma shiftr8 n : N.shiftr n 8 = n / 256.
+Proof. rewrite N.shiftr_div_pow2. reflexivity. Qed.
+Lemma shiftr14 n : N.shiftr n 14 = n / 16384.
+Proof. rewrite N.shiftr_div_pow2. reflexivity. Qed.
+Lemma shiftr21 n : N.shiftr n 21 = n / 2097152.
+Proof. rewrite N.shiftr_div_pow2. reflexivity. Qed.
+
 (* ---------- remaining length ---------- *)
 
 (* the Go shifts and masks compute the arithmetic form *)
 Lemma remaining_length_go_eq n : remaining_length_go n = remaining_length n.
-Proof. Admitted.
+Proof.
+  unfold remaining_length_go, remaining_length, go_byte.
+  rewrite !shiftr7, !shiftr14, !shiftr21, !lor_go_byte, !land_go_byte.
+  destruct (n <=? 127) eqn:E1; [|reflexivity].
+  f_equal. f_equal. lia.
+Qed.
+
+(* the five ranges of the remaining-length function *)
+Ltac rl_cases n :=
+  destruct (n <=? 127) eqn:E1;
+  [|destruct (n <=? 16383) eqn:E2;
+    [|destruct (n <=? 2097151) eqn:E3;
+      [|destruct (n <=? 268435455) eqn:E4]]].
 
 Theorem varint_defined_iff n : n <= 268435455 <-> exists rl, remaining_length n = Some rl.
-Proof. Admitted.
+Proof.
+  unfold remaining_length. split.
+  - intros H. rl_cases n; try (eexists; reflexivity). lia.
+  - intros [rl H]. rl_cases n; try lia. discriminate.
+Qed.
+
+Lemma dv_more f mult acc b r : 128 <= b ->
+  decode_varint (S f) mult acc (b :: r) = decode_varint f (mult * 128) (acc + (b mod 128) * mult) r.
+Proof.
+  intros Hb. cbn [decode_varint]. destruct (b <? 128) eqn:E; [lia | reflexivity].
+Qed.
+
+Lemma dv_last f mult acc b r : b < 128 ->
+  decode_varint (S f) mult acc (b :: r) = Some (acc + (b mod 128) * mult, r).
+Proof.
+  intros Hb. cbn [decode_varint]. destruct (b <? 128) eqn:E; [reflexivity | lia].
+Qed.
 
 Theorem varint_roundtrip n rl r : remaining_length n = Some rl ->
   decode_varint 4 1 0 (rl ++ r) = Some (n, r).
-Proof. Admitted.
+Proof.
+  unfold remaining_length. intros H.
+  rl_cases n; try discriminate; injection H as <-; cbn [app].
+  - rewrite dv_last by lia. f_equal. f_equal. lia.
+  - rewrite dv_more by lia. rewrite dv_last by lia. f_equal. f_equal. lia.
+  - rewrite dv_more by lia. rewrite dv_more by lia. rewrite dv_last by lia. f_equal. f_equal. lia.
+  - rewrite dv_more by lia. rewrite dv_more by lia. rewrite dv_more by lia. rewrite dv_last by lia.
+    f_equal. f_equal. lia.
+Qed.
 
 Theorem varint_minimal n rl : remaining_length n = Some rl -> length rl = min_varint_len n.
-Proof. Admitted.
+Proof.
+  unfold remaining_length, min_varint_len. intros H.
+  rl_cases n; try discriminate; injection H as <-; reflexivity.
+Qed.
 
 Theorem varint_bytes n rl : remaining_length n = Some rl -> Forall (fun b => b < 256) rl.
-Proof. Admitted.
+Proof.
+  unfold remaining_length. intros H.
+  rl_cases n; try discriminate; injection H as <-; repeat constructor; lia.
+Qed.
+
+Lemma dv_shrinks k : forall mult acc bs n r,
+  decode_varint k mult acc bs = Some (n, r) -> (length r < length bs)%nat.
+Proof.
+  induction k as [|k IH]; intros mult acc bs n r H; cbn [decode_varint] in H; [discriminate|].
+  destruct bs as [|b bs]; [discriminate|].
+  destruct (b <? 128).
+  - injection H as _ <-. cbn [length]. lia.
+  - apply IH in H. cbn [length]. lia.
+Qed.
+
+Ltac mvl_cases :=
+  unfold min_varint_len;
+  repeat match goal with |- context [?a <=? ?b] => destruct (a <=? b) eqn:? end.
 
 (* no shorter encoding exists: any byte string that decodes to n has at least min_varint_len n bytes *)
 Theorem varint_no_shorter n bs r k : decode_varint k 1 0 bs = Some (n, r) ->
   (min_varint_len n <= length bs - length r)%nat.
-Proof. Admitted.
+Proof.
+  intros H.
+  destruct k as [|k1]; cbn [decode_varint] in H; [discriminate|].
+  destruct bs as [|b1 bs1]; [discriminate|].
+  destruct (b1 <? 128) eqn:B1.
+  { injection H as Hn <-. cbn [length]. mvl_cases; lia. }
+  destruct k1 as [|k2]; cbn [decode_varint] in H; [discriminate|].
+  destruct bs1 as [|b2 bs2]; [discriminate|].
+  destruct (b2 <? 128) eqn:B2.
+  { injection H as Hn <-. cbn [length]. mvl_cases; lia. }
+  destruct k2 as [|k3]; cbn [decode_varint] in H; [discriminate|].
+  destruct bs2 as [|b3 bs3]; [discriminate|].
+  destruct (b3 <? 128) eqn:B3.
+  { injection H as Hn <-. cbn [length]. mvl_cases; lia. }
+  apply dv_shrinks in H. cbn [length]. mvl_cases; lia.
+Qed.
 
 (* ---------- framing ---------- *)
 
 Lemma take_n_app body r : take_n (len body) (body ++ r) = Some (body, r).
-Proof. Admitted.
-
-Lemma dec_str_pack s b r : pack_bytes s = Some b -> dec_str (b ++ r) = Some (s, r).
-Proof. Admitted.
+Proof.
+  unfold take_n, len. rewrite app_length.
+  destruct (N.of_nat (length body) <=? N.of_nat (length body + length r)) eqn:E; [|lia].
+  rewrite Nat2N.id, firstn_app, skipn_app, Nat.sub_diag, firstn_all, skipn_all.
+  cbn [firstn skipn app]. rewrite app_nil_r. reflexivity.
+Qed.
 
 Lemma dec_u16_bytes v r : v < 65536 -> dec_u16 (uint16_bytes v ++ r) = Some (v, r).
-Proof. Admitted.
+Proof.
+  intros Hv. unfold uint16_bytes, go_byte. rewrite shiftr8. cbn [app dec_u16].
+  f_equal. f_equal. lia.
+Qed.
+
+Lemma dec_str_pack s b r : pack_bytes s = Some b -> dec_str (b ++ r) = Some (s, r).
+Proof.
+  unfold pack_bytes. destruct (len s <=? 65535) eqn:E; [|discriminate].
+  intros H. apply some_inj in H. subst b. unfold dec_str.
+  rewrite <- app_assoc, dec_u16_bytes by lia. apply take_n_app.
+Qed.
+
+Lemma pack_bytes_nonnil s b : pack_bytes s = Some b -> b <> [].
+Proof.
+  unfold pack_bytes. destruct (len s <=? 65535); [|discriminate].
+  intros H. apply some_inj in H. subst b. unfold uint16_bytes. cbn [app]. discriminate.
+Qed.
 
 (* pack succeeds exactly when the body fits the protocol limit *)
 Theorem pack_defined_iff typ body : len body <= 268435455 <-> exists b, pack typ body = Some b.
-Proof. Admitted.
+Proof.
+  unfold pack. rewrite remaining_length_go_eq, varint_defined_iff. split.
+  - intros [rl H]. rewrite H. eexists. reflexivity.
+  - intros [b H]. destruct (remaining_length (len body)) as [rl|]; [eexists; reflexivity | discriminate].
+Qed.
+
+(* the per-type part of spec_decode, once the frame has been cut out *)
+Definition dec_body (typ fl : N) (body : list N) : option packet :=
+  match typ with
+  | 1 => if fl =? 0 then dec_connect body else None
+  | 2 => if fl =? 0 then
+           match body with
+           | [a; c] => if a <=? 1 then Some (PConnAck (a =? 1) c) else None
+           | _ => None
+           end else None
+  | 3 => let qos := (fl / 2) mod 4 in
+         if qos =? 3 then None else
+         opt_bind (dec_str body) (fun '(t, r) =>
+         if qos =? 0 then Some (PPublish (testbit fl 3) qos (testbit fl 0) t None r)
+         else opt_bind (dec_u16 r) (fun '(id, r') =>
+              Some (PPublish (testbit fl 3) qos (testbit fl 0) t (Some id) r')))
+  | 4 => if fl =? 0 then dec_id_only PPubAck body else None
+  | 5 => if fl =? 0 then dec_id_only PPubRec body else None
+  | 6 => if fl =? 2 then dec_id_only PPubRel body else None
+  | 7 => if fl =? 0 then dec_id_only PPubComp body else None
+  | 8 => if fl =? 2 then
+           opt_bind (dec_u16 body) (fun '(id, r) =>
+           opt_bind (dec_subs (S (length r)) r) (fun subs =>
+           match subs with [] => None | _ => Some (PSubscribe id subs) end))
+         else None
+  | 9 => if fl =? 0 then
+           opt_bind (dec_u16 body) (fun '(id, r) => Some (PSubAck id r))
+         else None
+  | 10 => if fl =? 2 then
+            opt_bind (dec_u16 body) (fun '(id, r) =>
+            opt_bind (dec_topics (S (length r)) r) (fun ts =>
+            match ts with [] => None | _ => Some (PUnsubscribe id ts) end))
+          else None
+  | 11 => if fl =? 0 then dec_id_only PUnsubAck body else None
+  | 12 => if (fl =? 0) && is_nil_b body then Some PPingReq else None
+  | 13 => if (fl =? 0) && is_nil_b body then Some PPingResp else None
+  | 14 => if (fl =? 0) && is_nil_b body then Some PDisconnect else None
+  | _ => None
+  end.
+
+Lemma spec_decode_pack typ body b r : pack typ body = Some b ->
+  spec_decode (b ++ r) = opt_bind (dec_body (typ / 16) (typ mod 16) body) (fun p => Some (p, r)).
+Proof.
+  unfold pack. rewrite remaining_length_go_eq.
+  destruct (remaining_length (len body)) as [rl|] eqn:E; [|discriminate].
+  intros H. apply some_inj in H. subst b.
+  cbn [app]. unfold spec_decode. rewrite <- app_assoc.
+  rewrite (varint_roundtrip _ _ _ E). cbn [opt_bind].
+  rewrite take_n_app. cbn [opt_bind]. reflexivity.
+Qed.
 
 (* ---------- PUBLISH ---------- *)
+
+Lemma publish_header_bits ret dup q : q <= 2 ->
+  (48 + b2n ret 1 + 2 * q + b2n dup 8) / 16 = 3 /\
+  (((48 + b2n ret 1 + 2 * q + b2n dup 8) mod 16) / 2) mod 4 = q /\
+  testbit ((48 + b2n ret 1 + 2 * q + b2n dup 8) mod 16) 3 = dup /\
+  testbit ((48 + b2n ret 1 + 2 * q + b2n dup 8) mod 16) 0 = ret.
+Proof.
+  intros Hq. assert (Hc : q = 0 \/ q = 1 \/ q = 2) by lia.
+  destruct Hc as [-> | [-> | ->]]; destruct ret, dup; vm_compute; repeat split; reflexivity.
+Qed.
 
 Theorem publish_roundtrip m b r : pack_publish m = Some b -> m_id m < 65536 ->
   spec_decode (b ++ r) =
     Some (PPublish (m_dup m) (m_qos m) (m_retain m) (m_topic m)
                    (if m_qos m =? 0 then None else Some (m_id m)) (m_payload m), r).
-Proof. Admitted.
+Proof.
+  intros H Hid. unfold pack_publish, bind, publish_header_byte in H.
+  destruct (m_qos m <=? 2) eqn:Eq; [|discriminate].
+  destruct (pack_bytes (m_topic m)) as [t|] eqn:Et; [|discriminate].
+  rewrite (spec_decode_pack _ _ _ _ H).
+  destruct (publish_header_bits (m_retain m) (m_dup m) (m_qos m)) as (H1 & H2 & H3 & H4); [lia|].
+  rewrite H1. unfold dec_body. cbv beta iota zeta. rewrite H2, H3, H4.
+  rewrite (dec_str_pack _ _ _ Et). cbn [opt_bind].
+  destruct (m_qos m =? 3) eqn:E3; [lia|].
+  destruct (m_qos m =? 0) eqn:E0.
+  - cbn [app opt_bind]. reflexivity.
+  - rewrite dec_u16_bytes by lia. cbn [opt_bind]. reflexivity.
+Qed.
 
 Theorem publish_defined m : m_qos m <= 2 -> len (m_topic m) <= 65535 ->
   len (m_topic m) + len (m_payload m) + 4 <= 268435455 -> exists b, pack_publish m = Some b.
-Proof. Admitted.
+Proof.
+  intros Hq Ht Hl. unfold pack_publish, bind, publish_header_byte, pack_bytes.
+  destruct (m_qos m <=? 2) eqn:Eq; [|lia].
+  destruct (len (m_topic m) <=? 65535) eqn:Et; [|lia].
+  apply pack_defined_iff. unfold len in *. unfold uint16_bytes.
+  destruct (m_qos m =? 0); rewrite !app_length; cbn [length]; lia.
+Qed.
 
 (* what the property asks: QoS above 2 and payloads over the configured maximum are rejected *)
 Theorem validate_rejects max m :
   2 < m_qos m \/ (max <> 0 /\ max < len (m_payload m)) -> validate_message max m <> 0.
-Proof. Admitted.
+Proof.
+  unfold validate_message. intros H.
+  destruct (max =? 0) eqn:E0; destruct (max <=? len (m_payload m)) eqn:E1;
+    destruct (2 <? m_qos m) eqn:E2; cbn [negb andb]; lia.
+Qed.
 
 (* what the code does exactly (it already rejects a payload of exactly max bytes) *)
 Theorem validate_accepts_iff max m :
   validate_message max m = 0 <-> (m_qos m <= 2 /\ (max = 0 \/ len (m_payload m) < max)).
-Proof. Admitted.
+Proof.
+  unfold validate_message.
+  destruct (max =? 0) eqn:E0; destruct (max <=? len (m_payload m)) eqn:E1;
+    destruct (2 <? m_qos m) eqn:E2; cbn [negb andb]; lia.
+Qed.
 
 (* ---------- CONNECT ---------- *)
 
 Definition will_fields (w : will) := (w_topic w, w_payload w, w_qos w, w_retain w).
 Definition opt_str (s : str) : option str := if nonempty s then Some s else None.
+
+Lemma connect_flags_bits c :
+  (forall w, c_will c = Some w -> w_qos w <= 2) ->
+  testbit (connect_flags c) 0 = false /\
+  testbit (connect_flags c) 1 = c_clean c /\
+  testbit (connect_flags c) 2 = (match c_will c with Some _ => true | None => false end) /\
+  (connect_flags c / 8) mod 4 = (match c_will c with Some w => w_qos w | None => 0 end) /\
+  testbit (connect_flags c) 5 = (match c_will c with Some w => w_retain w | None => false end) /\
+  testbit (connect_flags c) 6 = nonempty (c_pass c) /\
+  testbit (connect_flags c) 7 = nonempty (c_user c).
+Proof.
+  intros Hw. unfold connect_flags.
+  destruct (c_will c) as [w|].
+  - assert (Hq : w_qos w = 0 \/ w_qos w = 1 \/ w_qos w = 2) by (specialize (Hw w eq_refl); lia).
+    destruct Hq as [-> | [-> | ->]];
+      destruct (c_clean c), (w_retain w), (nonempty (c_user c)), (nonempty (c_pass c));
+      vm_compute; repeat split; reflexivity.
+  - destruct (c_clean c), (nonempty (c_user c)), (nonempty (c_pass c));
+      vm_compute; repeat split; reflexivity.
+Qed.
+
+Lemma nonempty_false s : nonempty s = false -> s = [].
+Proof. destruct s; [reflexivity | discriminate]. Qed.
+
+Lemma nonempty_true s : nonempty s = true -> s <> [].
+Proof. destruct s; [discriminate | intros _; discriminate]. Qed.
+
+Lemma pack_mqtt_name : pack_bytes [77; 81; 84; 84] = Some [0; 4; 77; 81; 84; 84].
+Proof. vm_compute. reflexivity. Qed.
+
+Ltac dec_steps :=
+  repeat first
+    [ rewrite dec_u16_bytes by lia
+    | erewrite dec_str_pack by eassumption
+    | progress cbn [opt_bind app] ].
+
+Lemma dec_connect_body c cid wl us pw :
+  pack_bytes (c_client_id c) = Some cid ->
+  match c_will c with
+  | None => Some []
+  | Some w => bind (pack_bytes (w_topic w)) (fun t =>
+              bind (pack_bytes (w_payload w)) (fun p => Some (t ++ p)))
+  end = Some wl ->
+  (if nonempty (c_user c) then pack_bytes (c_user c) else Some []) = Some us ->
+  (if nonempty (c_pass c) then pack_bytes (c_pass c) else Some []) = Some pw ->
+  c_level c < 256 -> c_keepalive c < 65536 ->
+  (c_pass c <> [] -> c_user c <> []) ->
+  (forall w, c_will c = Some w -> w_qos w <= 2) ->
+  dec_connect ([0; 4; 77; 81; 84; 84; go_byte (c_level c); connect_flags c]
+               ++ uint16_bytes (c_keepalive c) ++ cid ++ wl ++ us ++ pw) =
+    Some (PConnect (c_level c) (c_clean c) (c_keepalive c) (c_client_id c)
+                   (option_map will_fields (c_will c)) (opt_str (c_user c)) (opt_str (c_pass c))).
+Proof.
+  intros Hcid Hwl Hus Hpw Hl Hk Hpu Hw.
+  destruct (connect_flags_bits c Hw) as (F0 & F1 & F2 & F3 & F5 & F6 & F7).
+  unfold dec_connect.
+  change ([0; 4; 77; 81; 84; 84; go_byte (c_level c); connect_flags c]
+          ++ uint16_bytes (c_keepalive c) ++ cid ++ wl ++ us ++ pw)
+    with ([0; 4; 77; 81; 84; 84]
+          ++ go_byte (c_level c) :: connect_flags c
+             :: uint16_bytes (c_keepalive c) ++ cid ++ wl ++ us ++ pw).
+  rewrite (dec_str_pack _ _ _ pack_mqtt_name). cbn [opt_bind].
+  rewrite str_eqb_refl. cbn [negb]. cbv zeta.
+  rewrite F0, F1, F2, F3, F5, F6, F7.
+  replace (go_byte (c_level c)) with (c_level c) by (unfold go_byte; lia).
+  replace pw with (pw ++ []) by apply app_nil_r.
+  unfold opt_str.
+  assert (Hq3 : forall q, q <= 2 -> (q =? 3) = false) by (intros q Hq; lia).
+  destruct (nonempty (c_pass c)) eqn:Ep; destruct (nonempty (c_user c)) eqn:Eu.
+  2: { exfalso. apply nonempty_true in Ep. apply nonempty_false in Eu. tauto. }
+  all: destruct (c_will c) as [w|] eqn:Ew.
+  all: try (unfold bind in Hwl;
+            destruct (pack_bytes (w_topic w)) as [wt|] eqn:Ewt; [|discriminate];
+            destruct (pack_bytes (w_payload w)) as [wp|] eqn:Ewp; [|discriminate];
+            rewrite (Hq3 (w_qos w)) by (apply Hw; reflexivity)).
+  all: apply some_inj in Hwl; subst wl.
+  all: try (apply some_inj in Hus; subst us).
+  all: try (apply some_inj in Hpw; subst pw).
+  all: change (0 =? 3) with false; change (0 =? 0) with true; cbn [negb andb orb].
+  all: rewrite <- ?app_assoc.
+  all: dec_steps.
+  all: reflexivity.
+Qed.
 
 Theorem connect_roundtrip c b r : pack_connect c = Some b ->
   c_level c < 256 -> c_keepalive c < 65536 ->
@@ -77,19 +377,108 @@ Theorem connect_roundtrip c b r : pack_connect c = Some b ->
   spec_decode (b ++ r) =
     Some (PConnect (c_level c) (c_clean c) (c_keepalive c) (c_client_id c)
                    (option_map will_fields (c_will c)) (opt_str (c_user c)) (opt_str (c_pass c)), r).
-Proof. Admitted.
+Proof.
+  intros H Hl Hk Hpu Hw. unfold pack_connect in H. unfold bind at 1 in H.
+  destruct (pack_bytes (c_client_id c)) as [cid|] eqn:Hcid; [|discriminate].
+  unfold bind at 1 in H.
+  match type of H with match ?x with _ => _ end = _ => destruct x as [wl|] eqn:Hwl; [|discriminate] end.
+  unfold bind at 1 in H.
+  match type of H with match ?x with _ => _ end = _ => destruct x as [us|] eqn:Hus; [|discriminate] end.
+  unfold bind at 1 in H.
+  match type of H with match ?x with _ => _ end = _ => destruct x as [pw|] eqn:Hpw; [|discriminate] end.
+  rewrite (spec_decode_pack _ _ _ _ H).
+  change (16 / 16) with 1. change (16 mod 16) with 0. unfold dec_body.
+  change (0 =? 0) with true. cbv beta iota.
+  rewrite (dec_connect_body c cid wl us pw Hcid Hwl Hus Hpw Hl Hk Hpu Hw).
+  reflexivity.
+Qed.
 
 (* ---------- SUBSCRIBE / UNSUBSCRIBE ---------- *)
 
+Lemma dec_subs_S f bs : bs <> [] ->
+  dec_subs (S f) bs =
+    opt_bind (dec_str bs) (fun '(t, r) =>
+      match r with
+      | q :: r' => if q <=? 2 then opt_bind (dec_subs f r') (fun rest => Some ((t, q) :: rest)) else None
+      | [] => None
+      end).
+Proof. destruct bs; [congruence | reflexivity]. Qed.
+
+Lemma dec_topics_S f bs : bs <> [] ->
+  dec_topics (S f) bs =
+    opt_bind (dec_str bs) (fun '(t, r) => opt_bind (dec_topics f r) (fun rest => Some (t :: rest))).
+Proof. destruct bs; [congruence | reflexivity]. Qed.
+
+Lemma dec_subs_payload subs : forall p fuel,
+  sub_payload subs = Some p -> (length p < fuel)%nat -> dec_subs fuel p = Some subs.
+Proof.
+  induction subs as [|[t q] rest IH]; intros p fuel H Hf; cbn [sub_payload] in H.
+  - apply some_inj in H. subst p. destruct fuel as [|f]; [lia | reflexivity].
+  - unfold bind in H.
+    destruct (pack_bytes t) as [tb|] eqn:Et; [|discriminate].
+    destruct (q <=? 2) eqn:Eq; [|discriminate].
+    destruct (sub_payload rest) as [pr|] eqn:Er; [|discriminate].
+    apply some_inj in H. subst p.
+    destruct fuel as [|f]; [lia|].
+    rewrite dec_subs_S
+      by (intros Hnil; apply app_eq_nil in Hnil; destruct Hnil as [_ Hnil]; discriminate).
+    rewrite (dec_str_pack _ _ _ Et). cbn [opt_bind]. rewrite Eq.
+    rewrite (IH pr f eq_refl) by (rewrite app_length in Hf; cbn [length] in Hf; lia).
+    reflexivity.
+Qed.
+
+Lemma dec_topics_payload topics : forall p fuel,
+  unsub_payload topics = Some p -> (length p < fuel)%nat -> dec_topics fuel p = Some topics.
+Proof.
+  induction topics as [|t rest IH]; intros p fuel H Hf; cbn [unsub_payload] in H.
+  - apply some_inj in H. subst p. destruct fuel as [|f]; [lia | reflexivity].
+  - unfold bind in H.
+    destruct (pack_bytes t) as [tb|] eqn:Et; [|discriminate].
+    destruct (unsub_payload rest) as [pr|] eqn:Er; [|discriminate].
+    apply some_inj in H. subst p.
+    destruct fuel as [|f]; [lia|].
+    pose proof (pack_bytes_nonnil _ _ Et) as Htb.
+    rewrite dec_topics_S
+      by (intros Hnil; apply app_eq_nil in Hnil; destruct Hnil as [Hnil _]; contradiction).
+    rewrite (dec_str_pack _ _ _ Et). cbn [opt_bind].
+    assert (Hlen : (1 <= length tb)%nat) by (destruct tb; [congruence | cbn [length]; lia]).
+    rewrite (IH pr f eq_refl) by (rewrite app_length in Hf; lia).
+    reflexivity.
+Qed.
+
 Theorem subscribe_roundtrip id subs b r : pack_subscribe id subs = Some b -> id < 65536 -> subs <> [] ->
   spec_decode (b ++ r) = Some (PSubscribe id subs, r).
-Proof. Admitted.
+Proof.
+  intros H Hid Hne. unfold pack_subscribe, bind in H.
+  destruct (sub_payload subs) as [p|] eqn:Ep; [|discriminate].
+  rewrite (spec_decode_pack _ _ _ _ H).
+  change (130 / 16) with 8. change (130 mod 16) with 2. unfold dec_body.
+  change (2 =? 2) with true. cbv beta iota.
+  rewrite dec_u16_bytes by lia. cbn [opt_bind].
+  rewrite (dec_subs_payload _ _ _ Ep) by lia. cbn [opt_bind].
+  destruct subs; [congruence | reflexivity].
+Qed.
 
 Theorem unsubscribe_roundtrip id topics b r : pack_unsubscribe id topics = Some b -> id < 65536 -> topics <> [] ->
   spec_decode (b ++ r) = Some (PUnsubscribe id topics, r).
-Proof. Admitted.
+Proof.
+  intros H Hid Hne. unfold pack_unsubscribe, bind in H.
+  destruct (unsub_payload topics) as [p|] eqn:Ep; [|discriminate].
+  rewrite (spec_decode_pack _ _ _ _ H).
+  change (162 / 16) with 10. change (162 mod 16) with 2. unfold dec_body.
+  change (2 =? 2) with true. cbv beta iota.
+  rewrite dec_u16_bytes by lia. cbn [opt_bind].
+  rewrite (dec_topics_payload _ _ _ Ep) by lia. cbn [opt_bind].
+  destruct topics; [congruence | reflexivity].
+Qed.
 
 (* ---------- small packets ---------- *)
+
+Lemma dec_id_only_bytes mk id : id < 65536 -> dec_id_only mk (uint16_bytes id) = Some (mk id).
+Proof.
+  intros Hid. unfold uint16_bytes, go_byte, dec_id_only. rewrite shiftr8.
+  f_equal. f_equal. lia.
+Qed.
 
 Theorem small_roundtrip id r : id < 65536 ->
   (forall b, pack_puback id = Some b -> spec_decode (b ++ r) = Some (PPubAck id, r)) /\
@@ -98,16 +487,41 @@ Theorem small_roundtrip id r : id < 65536 ->
   (forall b, pack_pubcomp id = Some b -> spec_decode (b ++ r) = Some (PPubComp id, r)) /\
   (forall b, pack_pingreq = Some b -> spec_decode (b ++ r) = Some (PPingReq, r)) /\
   (forall b, pack_disconnect = Some b -> spec_decode (b ++ r) = Some (PDisconnect, r)).
-Proof. Admitted.
+Proof.
+  intros Hid.
+  unfold pack_puback, pack_pubrec, pack_pubrel, pack_pubcomp, pack_pingreq, pack_disconnect.
+  repeat split; intros b H; rewrite (spec_decode_pack _ _ _ _ H).
+  - change (64 / 16) with 4. change (64 mod 16) with 0. unfold dec_body.
+    change (0 =? 0) with true. cbv beta iota.
+    rewrite dec_id_only_bytes by exact Hid. reflexivity.
+  - change (80 / 16) with 5. change (80 mod 16) with 0. unfold dec_body.
+    change (0 =? 0) with true. cbv beta iota.
+    rewrite dec_id_only_bytes by exact Hid. reflexivity.
+  - change (98 / 16) with 6. change (98 mod 16) with 2. unfold dec_body.
+    change (2 =? 2) with true. cbv beta iota.
+    rewrite dec_id_only_bytes by exact Hid. reflexivity.
+  - change (112 / 16) with 7. change (112 mod 16) with 0. unfold dec_body.
+    change (0 =? 0) with true. cbv beta iota.
+    rewrite dec_id_only_bytes by exact Hid. reflexivity.
+  - reflexivity.
+  - reflexivity.
+Qed.
 
 Theorem small_defined id :
   (exists b, pack_puback id = Some b) /\ (exists b, pack_pubrec id = Some b) /\
   (exists b, pack_pubrel id = Some b) /\ (exists b, pack_pubcomp id = Some b) /\
   (exists b, pack_pingreq = Some b) /\ (exists b, pack_disconnect = Some b).
-Proof. Admitted.
+Proof.
+  unfold pack_puback, pack_pubrec, pack_pubrel, pack_pubcomp, pack_pingreq, pack_disconnect.
+  repeat split; apply pack_defined_iff; unfold len, uint16_bytes; cbn [length]; lia.
+Qed.
 
 (* ---------- non-vacuity ---------- *)
 Example ex_publish_big :
   exists b, pack_publish {| m_topic := [97]; m_id := 65535; m_qos := 2; m_retain := true; m_dup := true;
                             m_payload := repeat 7 200 |} = Some b.
-Proof. Admitted.
+Proof. eexists. vm_compute. reflexivity. Qed.
+
+Print Assumptions publish_roundtrip.
+Print Assumptions connect_roundtrip.
+Print Assumptions varint_roundtrip.
